@@ -60,10 +60,40 @@ func exists(lo, hi int, f func(i int) bool) bool {
 	return false
 }
 
+// forallIn / existsIn quantify over the elements s[lo:hi] (k is the index, e the element).
+func forallIn[T any](s []T, lo, hi int, f func(k int, e T) bool) bool {
+	for k := lo; k < hi; k++ {
+		if !f(k, s[k]) {
+			return false
+		}
+	}
+	return true
+}
+
+// forallStr is forallIn over the bytes of a string.
+func forallStr(s string, lo, hi int, f func(k int, e byte) bool) bool {
+	for k := lo; k < hi; k++ {
+		if !f(k, s[k]) {
+			return false
+		}
+	}
+	return true
+}
+
+func existsIn[T any](s []T, lo, hi int, f func(k int, e T) bool) bool {
+	for k := lo; k < hi; k++ {
+		if f(k, s[k]) {
+			return true
+		}
+	}
+	return false
+}
+
 // Frame clauses: what a function may write in memory that existed before the call.
 func modifiesTail(s any)  {} // the spare capacity s[len(s):cap(s)]
 func modifiesElems(s any) {} // the elements s[0:len(s)]
 func modifiesPtr(p any)   {} // the cell *p
+func modifiesMap(m any)   {} // the entries of map m
 func modifiesAll()        {} // anything
 
 func freshSlice(s any) bool { return true } // s's backing array was allocated by this call
@@ -72,6 +102,9 @@ func sameArray(a, b any) bool { return true } // a is b extended in place: same 
 
 // suffixOf: a is a suffix of b (same backing array, same end).
 func suffixOf(a, b any) bool { return true }
+
+// offsetIn: index of sub's first element within whole (they share a backing array).
+func offsetIn(sub, whole any) int { return 0 }
 
 // viewOf: b's content is exactly s[p:p+len(b)] (b comes from converting s and re-slicing).
 func viewOf(b []byte, s string, p int) bool {
@@ -86,4 +119,4 @@ func bytesEq[A, B ~[]byte | ~string](a A, b B) bool { return string(a) == string
 // loopIndex names the hidden index of the innermost enclosing range loop in loop invariants.
 var loopIndex int
 
-var _ = []any{requires, ensures, ensuresGoal, assert, assume, imp, iff, forall, exists, modifiesTail, modifiesElems, modifiesPtr, modifiesAll, freshSlice, sameBase, sameArray, disjointFromTail, suffixOf, viewOf, loopIndex}
+var _ = []any{requires, ensures, ensuresGoal, assert, assume, imp, iff, forall, exists, modifiesTail, modifiesElems, modifiesPtr, modifiesMap, modifiesAll, freshSlice, sameBase, sameArray, disjointFromTail, suffixOf, viewOf, offsetIn, loopIndex}
